@@ -7,7 +7,9 @@
   Vocabulary (values, rows, columns) is `namespace Tbl` of `Spec/C03.lean`; nothing of `namespace Spec` is used.
 -/
 import PdbVerif.Spec.C03
+import PdbVerif.Spec.C04
 import PdbVerif.Gen.Consts
+import PdbVerif.Py.List
 
 namespace Model
 open Tbl
@@ -27,32 +29,7 @@ def Err.tag : Err → String
 
 /-! ## SQLite: affinity, comparison, SELECT -/
 
-inductive Aff | integer | real | numeric | text
-  deriving DecidableEq, Repr, Inhabited
-
-/-- an added column -/
-structure ColDef where
-  name : Py.Str
-  aff : Aff
-  deriving DecidableEq, Repr, Inhabited
-
-structure Tab where
-  name : Py.Str
-  rows : Table
-  deriving DecidableEq, Repr, Inhabited
-
-/-- one database object: its tables (a `pdb2sql` has one, a `many2sql` several), the columns added so far,
-    and `_nModel` (number of ENDMDL records seen when the last table was read) -/
-structure Db where
-  tabs : List Tab
-  extra : List ColDef := []
-  nModel : Nat := 0
-  deriving DecidableEq, Repr, Inhabited
-
-def Db.extraNames (db : Db) : List Py.Str := db.extra.map (·.name)
-
-/-- `get_colnames()` -/
-def Db.colnames (db : Db) : List Py.Str := Tbl.colnames db.extraNames
+abbrev Aff := Decl
 
 /-- SQL identifiers compare case-insensitively -/
 def ciEq (a b : Py.Str) : Bool := Py.lower a == Py.lower b
@@ -70,13 +47,12 @@ def sqlCol (db : Db) (k : Py.Str) : Option Col :=
     | some i => some (.extra i)
     | none => if rowidAliases.contains (Py.lower k) then some .rowID else none
 
-def affOfKind : Kind → Aff
-  | .int => .integer | .real => .real | .text => .text
+def affOfKind (k : Kind) : Aff := k.decl
 
 def affOf (db : Db) : Col → Aff
   | .rowID => .integer
   | .std s => affOfKind s.kind
-  | .extra k => (db.extra.getD k ⟨[], .numeric⟩).aff
+  | .extra k => (db.extra.getD k ⟨[], .numeric⟩).decl
 
 /-- column affinity applied to a bound parameter before `=` / `IN` -/
 def applyAff (a : Aff) (v : Val) : Val :=
@@ -349,24 +325,6 @@ def storeVal (a : Aff) (v : Val) : Val :=
     | .real q => intIfIntegral q
     | .text s => match numOfText s with | some q => intIfIntegral q | none => .text s
 
-def setStd (s : StdCol) (w : Val) (a : Py.Atom) : Option Py.Atom :=
-  match s, w with
-  | .serial, .int i => some { a with serial := i }
-  | .resSeq, .int i => some { a with resSeq := i }
-  | .model, .int i => some { a with model := i }
-  | .x, .real q => some { a with x := q }
-  | .y, .real q => some { a with y := q }
-  | .z, .real q => some { a with z := q }
-  | .occ, .real q => some { a with occ := q }
-  | .temp, .real q => some { a with temp := q }
-  | .name, .text t => some { a with name := t }
-  | .altLoc, .text t => some { a with altLoc := t }
-  | .resName, .text t => some { a with resName := t }
-  | .chainID, .text t => some { a with chainID := t }
-  | .iCode, .text t => some { a with iCode := t }
-  | .element, .text t => some { a with element := t }
-  | _, _ => none
-
 /-- `SET c = v` on one row -/
 def setCell (db : Db) (c : Col) (v : Val) (r : Row) : Except Err Row :=
   match c with
@@ -482,17 +440,6 @@ def isIdent (s : Py.Str) : Bool :=
   | [] => false
   | c :: _ => (c.isAlpha || c == '_') && s.all isIdentChar
 
-def hasSub (sub s : Py.Str) : Bool := Py.strIn sub s
-
-/-- SQLite's rules for the affinity of a declared type -/
-def affOfDecl (ty : Py.Str) : Option Aff :=
-  let u := ty.map Char.toUpper
-  if hasSub "INT".toList u then some .integer
-  else if hasSub "CHAR".toList u || hasSub "CLOB".toList u || hasSub "TEXT".toList u then some .text
-  else if hasSub "BLOB".toList u then none
-  else if hasSub "REAL".toList u || hasSub "FLOA".toList u || hasSub "DOUB".toList u then some .real
-  else some .numeric
-
 def sqlKeywordsAsDefault : List Py.Str :=
   ["null".toList, "true".toList, "false".toList, "current_time".toList, "current_date".toList,
    "current_timestamp".toList]
@@ -506,7 +453,7 @@ def addColumn (db : Db) (name coltype : Py.Str) (value : Val) (tn : Py.Str) : Db
     else if rowidAliases.contains (Py.lower name) then (db, .error (.unmodelled "added column that hides rowid"))
     else if (sqlCol db name).isSome then (db, .error .operational)      -- duplicate column name
     else
-      match affOfDecl coltype with
+      match declOfType coltype with
       | none => (db, .error (.unmodelled "BLOB column"))
       | some aff =>
         let lit : Except Err Val :=
@@ -519,7 +466,7 @@ def addColumn (db : Db) (name coltype : Py.Str) (value : Val) (tn : Py.Str) : Db
         | .ok v =>
           let d := storeVal aff v
           ({ db with tabs := [{ tab with rows := tab.rows.map (fun r => { r with extra := r.extra ++ [d] }) }],
-                     extra := db.extra ++ [{ name := name, aff := aff }] }, .ok ())
+                     extra := db.extra ++ [{ name := name, decl := aff }] }, .ok ())
   | _ => (db, .error (.unmodelled "add_column on a database with several tables"))
 
 def defaultTable : Py.Str := "ATOM".toList
@@ -549,14 +496,6 @@ def fixChainID (db : Db) : Db × Except Err Unit :=
       match fillNewID db (ids.zipIdx.map (fun ci => (ci.2, ci.1))) (List.replicate natom (.text [])) with
       | .error e => (db, .error e)
       | .ok newID => updateColumn db "chainID".toList newID none defaultTable
-
-inductive Op
-  | update (columns : Py.Str) (values : List (List Val)) (tn : Py.Str) (kw : List Kw)
-  | updateXyz (values : List (List Val)) (tn : Py.Str) (kw : List Kw)
-  | updateColumn (colname : Py.Str) (values : List Val) (index : Option (List Val)) (tn : Py.Str)
-  | addColumn (name coltype : Py.Str) (value : Val) (tn : Py.Str)
-  | fixChainID
-  deriving Repr
 
 /-- one modification of a database object -/
 def step (db : Db) : Op → Db × Except Err Unit
